@@ -497,10 +497,10 @@ def apply_layout(biom, spec, recipe, r):
             if np.all(np.any(spec.D != 0, axis=1)):
                 t.max('observation')
     if recipe == 'touch-sample':
-        if m:
+        if n and m:
             t.data(spec.samp_ids[0], 'sample')
     elif recipe == 'touch-obs':
-        if n:
+        if n and m:
             t.data(spec.obs_ids[0], 'observation')
     elif recipe == 'touch-both':
         if n and m:
